@@ -311,12 +311,14 @@ private:
 		if(! tempList.empty()) {
 			for(auto it = tempList.begin(); it != tempList.end(); ) {
 				using ArgsTuple = typename PrototypeInfo::ArgsTuple;
-				auto item = it->template get<QueuedItem<ArgsTuple> >();
 
-				if(item.callableIndex != PrototypeInfo::index) {
+				// Look at the index through the base class first: only the items enqueued for this
+				// prototype hold a QueuedItem<ArgsTuple>, any other item must not be read as one.
+				if(it->template get<QueuedItemBase>().callableIndex != PrototypeInfo::index) {
 					++it;
 					continue;
 				}
+				auto & item = it->template get<QueuedItem<ArgsTuple> >();
 				if(doInvokeFuncWithQueuedEvent(
 					func,
 					item,
@@ -347,7 +349,15 @@ private:
 			}
 		}
 
-		using NextPrototypeInfo = FindPrototypeByCallableFromIndex<PrototypeInfo::index + 1, PrototypeList, F>;
+		// Continue the search after the prototype just handled: FindPrototypeByCallableFromIndex<N, List>
+		// expects List to start at prototype N.
+		using NextPrototypeInfo = FindPrototypeByCallableFromIndex<
+			PrototypeInfo::index + 1,
+			typename DropHeterTuple<PrototypeInfo::index + 1, PrototypeList>::Type,
+			F,
+			FindPrototypeDefaultArgTransformer,
+			HeterTupleSize<PrototypeList>::value
+		>;
 		if(doProcessIf<NextPrototypeInfo>(std::forward<F>(func))) {
 			return true;
 		}
